@@ -22,10 +22,10 @@ Proof. exact stop_completes_gen. Qed.
 Print Assumptions C17_stop_completes_any_order.
 
 (* ... instantiated with the order of ChainService.Stop and the site table
-   read off the code: Stop completes from every state, within 16.05 s of
+   read off the code: Stop completes from every state, within 16.55 s of
    timer time (below the 20 s the harness enforces). *)
 Theorem C17_stop_completes : forall st, incl st code_sites ->
-  exists t, run_stop stop_order [] st 0 = Done t (rev stop_order) /\ 0 <= t <= 16050.
+  exists t, run_stop stop_order [] st 0 = Done t (rev stop_order) /\ 0 <= t <= 16550.
 Proof. exact stop_completes. Qed.
 Print Assumptions C17_stop_completes.
 
@@ -83,7 +83,7 @@ Print Assumptions C17_monitor_sound.
 (* For every scenario the model's nominal duration is defined and below the
    bound: the replay's comparison "measured <= nominal + slack" is never
    vacuous. *)
-Theorem C17_nominal_defined : forall c, exists t, nominal_ms c = Some t /\ 0 <= t <= 16050.
+Theorem C17_nominal_defined : forall c, exists t, nominal_ms c = Some t /\ 0 <= t <= 16550.
 Proof. exact nominal_defined. Qed.
 Print Assumptions C17_nominal_defined.
 
@@ -119,6 +119,21 @@ Example C17_channel_capacity_matters :
   /\ run_stop stop_order [] [handler_in_reply] 0 = Hang CBcast.
 Proof. repeat split; vm_compute; reflexivity. Qed.
 Print Assumptions C17_channel_capacity_matters.
+
+(* The batch writer is stopped in two steps: close(b.quit) and wait for the
+   writer goroutine, THEN stop its queue.  After the first step nobody
+   receives from the queue's out channel any more, so the queue goroutine must
+   not send there when it is stopped (seeded change C17-12: flush the overflow
+   list to the out channel with a bare send): that send could only be served
+   by the writer, a goroutine of the same component, which has left — the
+   computable check rejects the site and Stop hangs at the batch writer's
+   stage. *)
+Example C17_queue_flush_after_writer_hangs :
+  let queue_flushing := mkSite 73 (Some CBatch) [RServe CBatch []] [] in
+  wf_from [] stop_order (queue_flushing :: code_sites) = false
+  /\ run_stop stop_order [] [queue_flushing] 0 = Hang CBatch.
+Proof. repeat split; vm_compute; reflexivity. Qed.
+Print Assumptions C17_queue_flush_after_writer_hangs.
 
 (* A GetUtxo / GetCFilter / GetBlock call that fails with an error of its own
    is accepted only in a scenario that is mid-sync or mid-reorganisation; the
